@@ -8,6 +8,7 @@ Not carried by a theorem: panics inside the external libraries on arbitrary byte
 import Vuego.Props.C17
 import Vuego.Lemmas.EvalInv
 import Vuego.Lemmas.NoCrashEval
+import Vuego.Generated.Parse
 namespace Vuego.Props.C11
 open Go Vuego
 
@@ -61,6 +62,11 @@ theorem pieces_never_crash (P : Params) (hcfg : P.cfg = Generated.reflectCfg) (h
     Safe (interpolate P s e) ∧ Safe (evalCondition P s e) ∧ Safe (evalBoundAttribute P s a e) ∧ Safe (evalPipe P s (parsePipeExpr e)) := by
   have g : GoodParams P := ⟨hcfg ▸ source_cfg_guards, hexpr⟩
   exact ⟨safe_interpolate P g s e, safe_evalCondition P g s e, safe_evalBoundAttribute P g s a e, safe_evalPipe P g s _⟩
+
+/-- the one place where the resolver indexes a slice or array through reflect is guarded from both sides: the index parsed, is not negative,
+    the value is a slice or an array, and the index is below its length (the model's `viaIndex` has exactly these guards) -/
+theorem source_index_guarded :
+    Generated.indexGuards = ["err == nil", "idx >= 0", "(v.Kind() == reflect.Slice || v.Kind() == reflect.Array)", "idx < v.Len()"] := by decide
 
 /-- the hypothesis on the reflect guards is needed: without the exported-field check a path through an unexported field panics (the
     pinned tree did; fix `c3dcf50`) -/
